@@ -46,6 +46,10 @@ func (fio *FileIO) Close() error {
 	if vhook.On {
 		vhook.IO("close", fio.fd.Name(), -1, 0, nil)
 	}
+	// 接口约定关闭之前进行持久化
+	if err := fio.Sync(); err != nil {
+		return err
+	}
 	return fio.fd.Close()
 }
 
